@@ -21,6 +21,7 @@ package c19
 import (
 	"bytes"
 	"fmt"
+	"runtime/debug"
 	"strings"
 	"sync/atomic"
 	"time"
@@ -57,12 +58,6 @@ type stats struct {
 	why [shards][16]atomic.Int64
 }
 
-var whyIdx = map[string]int{
-	labelref.WhyOverrun: 0, labelref.WhyTruncPtr: 1, labelref.WhyLoop: 2,
-	labelref.WhyReserved: 3, labelref.WhyPtrOutside: 4, labelref.WhyPtrUnterm: 5, labelref.WhyLong: 6,
-	labelref.WhyChain: 7, labelref.WhyRoot: 8,
-}
-
 func whyIndex(w string) int {
 	switch w {
 	case labelref.WhyOverrun:
@@ -97,7 +92,7 @@ func (s *stats) sum(k int) (t int64) {
 }
 func (s *stats) sumWhy(w string) (t int64) {
 	for i := range s.why {
-		t += s.why[i][whyIdx[w]].Load()
+		t += s.why[i][whyIndex(w)].Load()
 	}
 	return
 }
@@ -285,15 +280,21 @@ func sameLenDifferent(n string) string {
 	return string(b)
 }
 
-type edit struct {
-	kind   string
-	goStmt string
-	apply  func(l *rfc1035label.Labels)
+// otherCase flips the case of the first ASCII letter (n itself if it has none).
+func otherCase(n string) string {
+	b := []byte(n)
+	for i, x := range b {
+		if x >= 'a' && x <= 'z' || x >= 'A' && x <= 'Z' {
+			b[i] = x ^ 0x20
+			return string(b)
+		}
+	}
+	return n
 }
 
 func (k *checker) edits(s *subject, scope string, order int64, in []byte, l0 *rfc1035label.Labels, ref *labelref.Result) {
 	c := k.c
-	cls := inputClass(ref)
+	cls := func() string { return inputClass(ref) }
 	N := append([]string(nil), l0.Labels...)
 	n := len(N)
 
@@ -305,45 +306,75 @@ func (k *checker) edits(s *subject, scope string, order int64, in []byte, l0 *rf
 		return
 	}
 	if !bytes.Equal(out, in) {
-		c.Report(fw.Violation{Fingerprint: "Labels.ToBytes|unmodified≠original|" + cls, Order: order, Scope: scope, Input: fw.Hex(in),
+		c.Report(fw.Violation{Fingerprint: "Labels.ToBytes|unmodified≠original|" + cls(), Order: order, Scope: scope, Input: fw.Hex(in),
 			Observed: "ToBytes = " + fw.HexShort(out) + " (names " + q(N) + ")", Expected: "the original bytes " + fw.HexShort(in),
 			Explain: "a label set parsed from bytes and not modified must re-encode to exactly those bytes",
 			GoTest:  s.gotest(in, "\tif !bytes.Equal(l.ToBytes(), in) {\n\t\tt.Fatalf(\"ToBytes=%x\", l.ToBytes())\n\t}\n")})
 	}
 	var ln int
 	if pv, _ := fw.Safe(func() { ln = l0.Length() }); pv != nil || ln != len(out) {
-		c.Report(fw.Violation{Fingerprint: "Labels.Length|≠len(ToBytes)|" + cls, Order: order, Scope: scope, Input: fw.Hex(in),
+		c.Report(fw.Violation{Fingerprint: "Labels.Length|≠len(ToBytes)|" + cls(), Order: order, Scope: scope, Input: fw.Hex(in),
 			Observed: fmt.Sprintf("Length()=%d panic=%v", ln, pv), Expected: fmt.Sprintf("%d", len(out)), GoTest: s.gotest(in, "\tt.Log(l.Length(), len(l.ToBytes()))\n")})
 	}
 	// ToBytes on the unmodified set is itself repeatable
 	if out2, _, _ := safeToBytes(l0); !bytes.Equal(out2, out) {
-		c.Report(fw.Violation{Fingerprint: "Labels.ToBytes|determinism|" + cls, Order: order, Scope: scope, Input: fw.Hex(in),
+		c.Report(fw.Violation{Fingerprint: "Labels.ToBytes|determinism|" + cls(), Order: order, Scope: scope, Input: fw.Hex(in),
 			Observed: fw.HexShort(out2) + " after " + fw.HexShort(out), Expected: "same bytes twice", GoTest: s.gotest(in, "\tt.Logf(\"%x %x\", l.ToBytes(), l.ToBytes())\n")})
 	}
 
-	one := func(kind, stmt string, newList []string, apply func(l *rfc1035label.Labels)) {
+	one := func(kind string, stmtf func() string, newList []string, apply func(l *rfc1035label.Labels)) {
 		l, err, pv, _ := safeDecode(s, in)
 		if pv != nil || err != nil {
 			return // determinism violation is reported by decodeCase
 		}
+		// the set has already been encoded once when the edit happens (a stale cached encoding would show)
+		safeToBytes(l)
 		apply(l)
 		got, pv, stk := safeToBytes(l)
 		k.st.add(order, kEdits, 1)
+		// afterwards: put the parsed names back; the set must again encode these names — as the original
+		// bytes or as their plain encoding (the statement allows either once the names have been changed)
+		defer func() {
+			l.Labels = append([]string(nil), N...)
+			back, pv, _ := safeToBytes(l)
+			// ... and a second, different change must be encoded as well
+			second := append(append([]string(nil), N...), "y.second")
+			l.Labels = second
+			if got2, pv2, _ := safeToBytes(l); pv2 == nil && okList(second) && !bytes.Equal(got2, labelref.Encode(second)) {
+				stmt := stmtf() + "; l.ToBytes(); l.Labels = " + fmt.Sprintf("%#v", second)
+				c.Report(fw.Violation{Fingerprint: "Labels.ToBytes|edit:" + kind + "+second-edit:changed-list≠encoding|" + cls(), Order: order, Scope: scope,
+					Input:    fw.Hex(in) + " ; " + stmt,
+					Observed: "ToBytes = " + fw.HexShort(got2), Expected: fw.HexShort(labelref.Encode(second)) + " = encoding of " + q(second),
+					Explain: "after the names were changed a second time the set must encode the names it holds now", GoTest: s.gotest(in, "\t"+stmt+"\n\tt.Logf(\"%x\", l.ToBytes())\n")})
+			}
+			if pv != nil || bytes.Equal(back, in) || !okList(N) || bytes.Equal(back, labelref.Encode(N)) {
+				return
+			}
+			stmt := stmtf() + "; l.ToBytes(); l.Labels = " + fmt.Sprintf("%#v", N)
+			c.Report(fw.Violation{Fingerprint: "Labels.ToBytes|edit:" + kind + "+restore:neither-original-nor-encoding|" + cls(), Order: order, Scope: scope,
+				Input:    fw.Hex(in) + " ; " + stmt,
+				Observed: "ToBytes = " + fw.HexShort(back), Expected: "the original bytes " + fw.HexShort(in) + " or the plain encoding " + fw.HexShort(labelref.Encode(N)) + " of " + q(N),
+				Explain: "after an edit and setting the parsed names again the set must encode those names", GoTest: s.gotest(in, "\t"+stmt+"\n\tt.Logf(\"%x\", l.ToBytes())\n")})
+		}()
+		stmt := ""
 		gt := func() string {
+			stmt = stmtf()
 			return s.gotest(in, "\t"+stmt+"\n\tt.Logf(\"%x\", l.ToBytes())\n")
 		}
 		if pv != nil {
+			g := gt()
 			c.Report(fw.Violation{Fingerprint: "Labels.ToBytes|panic|" + fw.PanicSite(stk), Order: order, Scope: scope, Input: fw.Hex(in) + " ; " + stmt,
-				Observed: fmt.Sprintf("panic: %v at %s", pv, stk), Expected: "bytes", GoTest: gt()})
+				Observed: fmt.Sprintf("panic: %v at %s", pv, stk), Expected: "bytes", GoTest: g})
 			return
 		}
 		if sameNames(newList, N) {
 			k.st.add(order, kEditsEqual, 1)
 			if !bytes.Equal(got, in) {
-				c.Report(fw.Violation{Fingerprint: "Labels.ToBytes|edit:" + kind + ":equal-list≠original|" + cls, Order: order, Scope: scope,
+				g := gt()
+				c.Report(fw.Violation{Fingerprint: "Labels.ToBytes|edit:" + kind + ":equal-list≠original|" + cls(), Order: order, Scope: scope,
 					Input:    fw.Hex(in) + " ; " + stmt,
 					Observed: "ToBytes = " + fw.HexShort(got), Expected: "the original bytes " + fw.HexShort(in) + " (names still " + q(N) + ")",
-					Explain: "the edit leaves the name list equal to the parsed one, so the original bytes must still be returned", GoTest: gt()})
+					Explain: "the edit leaves the name list equal to the parsed one, so the original bytes must still be returned", GoTest: g})
 			}
 			return
 		}
@@ -354,10 +385,11 @@ func (k *checker) edits(s *subject, scope string, order int64, in []byte, l0 *rf
 		k.st.add(order, kEditsChanged, 1)
 		want := labelref.Encode(newList)
 		if !bytes.Equal(got, want) {
-			c.Report(fw.Violation{Fingerprint: "Labels.ToBytes|edit:" + kind + ":changed-list≠encoding|" + cls, Order: order, Scope: scope,
+			g := gt()
+			c.Report(fw.Violation{Fingerprint: "Labels.ToBytes|edit:" + kind + ":changed-list≠encoding|" + cls(), Order: order, Scope: scope,
 				Input:    fw.Hex(in) + " ; " + stmt,
 				Observed: "ToBytes = " + fw.HexShort(got), Expected: fw.HexShort(want) + " = encoding of " + q(newList) + " (parsed names were " + q(N) + ")",
-				Explain: "after the names were changed the set must encode the changed names", GoTest: gt()})
+				Explain: "after the names were changed the set must encode the changed names", GoTest: g})
 		}
 	}
 
@@ -372,30 +404,36 @@ func (k *checker) edits(s *subject, scope string, order int64, in []byte, l0 *rf
 		}
 		i := i
 		del := append(append([]string{}, N[:i]...), N[i+1:]...)
-		one("delete", fmt.Sprintf("l.Labels = append(l.Labels[:%d:%d], l.Labels[%d:]...)", i, i, i+1), del,
+		one("delete", func() string { return fmt.Sprintf("l.Labels = append(l.Labels[:%d:%d], l.Labels[%d:]...)", i, i, i+1) }, del,
 			func(l *rfc1035label.Labels) { l.Labels = append(l.Labels[:i:i], l.Labels[i+1:]...) })
 		d1 := diffLen(N[i])
-		one("replace-different", fmt.Sprintf("l.Labels[%d] = %q", i, d1), with(i, d1),
+		one("replace-different", func() string { return fmt.Sprintf("l.Labels[%d] = %q", i, d1) }, with(i, d1),
 			func(l *rfc1035label.Labels) { l.Labels[i] = d1 })
 		if d2 := sameLenDifferent(N[i]); d2 != "" {
-			one("replace-same-length", fmt.Sprintf("l.Labels[%d] = %q", i, d2), with(i, d2),
+			one("replace-same-length", func() string { return fmt.Sprintf("l.Labels[%d] = %q", i, d2) }, with(i, d2),
 				func(l *rfc1035label.Labels) { l.Labels[i] = d2 })
 		}
+		if d3 := otherCase(N[i]); d3 != N[i] {
+			one("replace-other-case", func() string { return fmt.Sprintf("l.Labels[%d] = %q", i, d3) }, with(i, d3),
+				func(l *rfc1035label.Labels) { l.Labels[i] = d3 })
+		}
 		eq := string(append([]byte(nil), N[i]...))
-		one("replace-equal", fmt.Sprintf("l.Labels[%d] = %q", i, eq), with(i, eq),
+		one("replace-equal", func() string { return fmt.Sprintf("l.Labels[%d] = %q", i, eq) }, with(i, eq),
 			func(l *rfc1035label.Labels) { l.Labels[i] = eq })
 		if i+1 < n {
 			sw := append([]string(nil), N...)
 			sw[i], sw[i+1] = sw[i+1], sw[i]
-			one("swap", fmt.Sprintf("l.Labels[%d], l.Labels[%d] = l.Labels[%d], l.Labels[%d]", i, i+1, i+1, i), sw,
+			one("swap", func() string {
+				return fmt.Sprintf("l.Labels[%d], l.Labels[%d] = l.Labels[%d], l.Labels[%d]", i, i+1, i+1, i)
+			}, sw,
 				func(l *rfc1035label.Labels) { l.Labels[i], l.Labels[i+1] = l.Labels[i+1], l.Labels[i] })
 		}
 	}
 	app := append(append([]string(nil), N...), "zz.a")
-	one("append", `l.Labels = append(l.Labels, "zz.a")`, app, func(l *rfc1035label.Labels) { l.Labels = append(l.Labels, "zz.a") })
-	one("clear", `l.Labels = nil`, nil, func(l *rfc1035label.Labels) { l.Labels = nil })
-	one("clear", `l.Labels = []string{}`, []string{}, func(l *rfc1035label.Labels) { l.Labels = []string{} })
-	one("replace-equal", `l.Labels = append([]string(nil), l.Labels...)`, N, func(l *rfc1035label.Labels) { l.Labels = append([]string(nil), l.Labels...) })
+	one("append", func() string { return `l.Labels = append(l.Labels, "zz.a")` }, app, func(l *rfc1035label.Labels) { l.Labels = append(l.Labels, "zz.a") })
+	one("clear", func() string { return `l.Labels = nil` }, nil, func(l *rfc1035label.Labels) { l.Labels = nil })
+	one("clear", func() string { return `l.Labels = []string{}` }, []string{}, func(l *rfc1035label.Labels) { l.Labels = []string{} })
+	one("replace-equal", func() string { return `l.Labels = append([]string(nil), l.Labels...)` }, N, func(l *rfc1035label.Labels) { l.Labels = append([]string(nil), l.Labels...) })
 }
 
 // ---------------------------------------------------------------- encode oracle (a)
@@ -413,22 +451,21 @@ func encTest(names []string) string {
 // (every name ≤ 255 octets), i.e. the full oracle applied.
 func (k *checker) encodeCase(scope string, order int64, names []string) bool {
 	c := k.c
-	in := q(names)
 	mk := func() *rfc1035label.Labels { return &rfc1035label.Labels{Labels: append([]string(nil), names...)} }
 	wire, pv, stk := safeToBytes(mk())
 	if pv != nil {
-		c.Report(fw.Violation{Fingerprint: "Labels.ToBytes|panic|" + fw.PanicSite(stk), Order: order, Scope: scope, Input: in,
+		c.Report(fw.Violation{Fingerprint: "Labels.ToBytes|panic|" + fw.PanicSite(stk), Order: order, Scope: scope, Input: q(names),
 			Observed: fmt.Sprintf("panic: %v at %s", pv, stk), Expected: "bytes", GoTest: encTest(names)})
 		return false
 	}
 	if w2, _, _ := safeToBytes(mk()); !bytes.Equal(w2, wire) {
-		c.Report(fw.Violation{Fingerprint: "Labels.ToBytes|determinism|encode", Order: order, Scope: scope, Input: in,
+		c.Report(fw.Violation{Fingerprint: "Labels.ToBytes|determinism|encode", Order: order, Scope: scope, Input: q(names),
 			Observed: fw.HexShort(w2) + " vs " + fw.HexShort(wire), Expected: "same bytes twice", GoTest: encTest(names)})
 	}
 	valid := labelref.ValidList(names)
 	l, err, pv, stk := safeDecode(direct, wire)
 	if pv != nil {
-		c.Report(fw.Violation{Fingerprint: "rfc1035label.FromBytes|panic|" + fw.PanicSite(stk), Order: order, Scope: scope, Input: in,
+		c.Report(fw.Violation{Fingerprint: "rfc1035label.FromBytes|panic|" + fw.PanicSite(stk), Order: order, Scope: scope, Input: q(names),
 			Observed: fmt.Sprintf("panic: %v at %s", pv, stk), Expected: "names or error", GoTest: encTest(names)})
 		return false
 	}
@@ -439,7 +476,7 @@ func (k *checker) encodeCase(scope string, order int64, names []string) bool {
 		if err == nil {
 			k.st.add(order, kUnspecAccepted, 1)
 			if out, _, _ := safeToBytes(l); !bytes.Equal(out, wire) {
-				c.Report(fw.Violation{Fingerprint: "Labels.ToBytes|unmodified≠original|encode:" + labelref.WhyLong, Order: order, Scope: scope, Input: in,
+				c.Report(fw.Violation{Fingerprint: "Labels.ToBytes|unmodified≠original|encode:" + labelref.WhyLong, Order: order, Scope: scope, Input: q(names),
 					Observed: fw.HexShort(out), Expected: fw.HexShort(wire), GoTest: encTest(names)})
 			}
 		}
@@ -447,29 +484,29 @@ func (k *checker) encodeCase(scope string, order int64, names []string) bool {
 	}
 	want := labelref.Encode(names)
 	if !bytes.Equal(wire, want) {
-		c.Report(fw.Violation{Fingerprint: "Labels.ToBytes|encode≠canonical|fresh-list", Order: order, Scope: scope, Input: in,
+		c.Report(fw.Violation{Fingerprint: "Labels.ToBytes|encode≠canonical|fresh-list", Order: order, Scope: scope, Input: q(names),
 			Observed: fw.HexShort(wire), Expected: fw.HexShort(want),
 			Explain: "encoding of a fresh list differs from the RFC 1035 §3.1 encoding (length-prefixed labels, zero terminator)", GoTest: encTest(names)})
 	}
 	rc, rn, why := labelref.Decode(wire)
 	if rc != labelref.MustAccept || !sameNames(rn, names) {
-		c.Report(fw.Violation{Fingerprint: "Labels.ToBytes|encode→reference-decode|fresh-list", Order: order, Scope: scope, Input: in,
-			Observed: fmt.Sprintf("bytes %s read by the reference decoder: %v %s names %s", fw.HexShort(wire), rc, why, q(rn)), Expected: "names " + in,
+		c.Report(fw.Violation{Fingerprint: "Labels.ToBytes|encode→reference-decode|fresh-list", Order: order, Scope: scope, Input: q(names),
+			Observed: fmt.Sprintf("bytes %s read by the reference decoder: %v %s names %s", fw.HexShort(wire), rc, why, q(rn)), Expected: "names " + q(names),
 			Explain: "the encoded bytes do not carry the given names under RFC 1035", GoTest: encTest(names)})
 	}
 	if err != nil || !sameNames(l.Labels, names) {
-		c.Report(fw.Violation{Fingerprint: "rfc1035label.FromBytes|encode→decode|fresh-list", Order: order, Scope: scope, Input: in,
-			Observed: fmt.Sprintf("bytes %s decode to err=%v names=%v", fw.HexShort(wire), err, namesOf(l)), Expected: "names " + in,
+		c.Report(fw.Violation{Fingerprint: "rfc1035label.FromBytes|encode→decode|fresh-list", Order: order, Scope: scope, Input: q(names),
+			Observed: fmt.Sprintf("bytes %s decode to err=%v names=%v", fw.HexShort(wire), err, namesOf(l)), Expected: "names " + q(names),
 			Explain: "encoding a list of valid names and decoding it must return the same list", GoTest: encTest(names)})
 		return true
 	}
 	if out, _, _ := safeToBytes(l); !bytes.Equal(out, wire) {
-		c.Report(fw.Violation{Fingerprint: "Labels.ToBytes|unmodified≠original|encode", Order: order, Scope: scope, Input: in,
+		c.Report(fw.Violation{Fingerprint: "Labels.ToBytes|unmodified≠original|encode", Order: order, Scope: scope, Input: q(names),
 			Observed: fw.HexShort(out), Expected: fw.HexShort(wire), GoTest: encTest(names)})
 	}
 	var ln int
 	if pv, _ := fw.Safe(func() { ln = mk().Length() }); pv != nil || ln != len(wire) {
-		c.Report(fw.Violation{Fingerprint: "Labels.Length|≠len(ToBytes)|encode", Order: order, Scope: scope, Input: in,
+		c.Report(fw.Violation{Fingerprint: "Labels.Length|≠len(ToBytes)|encode", Order: order, Scope: scope, Input: q(names),
 			Observed: fmt.Sprintf("Length()=%d panic=%v", ln, pv), Expected: fmt.Sprint(len(wire)), GoTest: encTest(names)})
 	}
 	return true
@@ -552,6 +589,8 @@ func Run(c *fw.Ctx) {
 		"Non-trivial = (a) the name list is valid (every name ≤ 255 octets) so encoding, reference decoding and library decoding are all compared; " +
 		"(b) the byte string is MUST-ACCEPT for the reference decoder (names are compared and every single edit is explored). " +
 		"MAY-REJECT / REJECT / UNSPECIFIED cases are evaluated with their own oracle and counted separately (coverage.classes).")
+	// the cases allocate many short-lived objects and keep nothing: collect less often during the run
+	defer debug.SetGCPercent(debug.SetGCPercent(800))
 	st := &stats{}
 	k := &checker{c: c, st: st}
 	var order int64
@@ -563,6 +602,9 @@ func Run(c *fw.Ctx) {
 	}
 	// ---------------- (a) encode → decode
 	L63 := rep('x', 63)
+	// quick: {"a","bc",63-byte, one label holding the bytes 00 ff c0}; thorough adds a 6-label set with
+	// the three special bytes in separate labels, and 4 names x 4 labels over two smaller sets
+	labels4 := []string{"a", "bc", L63, "\x00\xff\xc0"}
 	labels6 := []string{"a", "bc", L63, "\x00", "\xffz", "\xc0\x00"}
 	type encScope struct {
 		name      string
@@ -570,9 +612,12 @@ func Run(c *fw.Ctx) {
 		maxLabels int
 		maxNames  int
 	}
-	escopes := []encScope{{"a1:lists", labels6, 3, 3}}
+	escopes := []encScope{{"a1:lists", labels4, 3, 3}}
 	if c.Thorough() {
-		escopes = append(escopes, encScope{"a2:lists", []string{"a", L63, "\xc0\x00"}, 4, 4})
+		escopes = append(escopes,
+			encScope{"a2:lists", labels6, 3, 3},
+			encScope{"a4:lists", []string{"a\xc0", L63}, 4, 4},
+			encScope{"a5:lists", labels4, 2, 4})
 	}
 	for _, es := range escopes {
 		names := allNames(es.labels, es.maxLabels)
@@ -853,6 +898,7 @@ func Run(c *fw.Ctx) {
 		"names are compared in the library's representation: labels joined with '.', root = \"\", a trailing partial name looks like a complete one; no label contains 0x2e",
 		"UNSPECIFIED classes (stability only): reserved label types 01/10, pointer offset ≥ len(buffer), pointer to a name that runs to the end of the buffer without terminator, names over 255 octets",
 		"MAY-REJECT classes (error, or exactly the RFC names): pointer chains, root names (zero labels)",
+		"edits: delete name i, replace name i (longer / same length / other letter case / equal copy), swap neighbours, append, clear (nil and empty), replace the slice by an equal copy; each on a freshly parsed set that has been encoded once before; after each edit the parsed names are put back and the set must then give the original bytes or the plain encoding of those names, and a second change (append) must be encoded too",
 		"after an edit, 'encodes the changed names' is checked when every name of the new list is the root or a valid name (labels 1..63, ≤ 255 octets); otherwise only counted",
 	)
 }
